@@ -59,7 +59,9 @@ def ups_of(st):
 
 
 class BetMonitor(Monitor):
-    def __init__(self, unit):
+    def __init__(self, unit, model_factory=None, prefix='C03'):
+        self.model_factory = model_factory or model_for
+        self.prefix = prefix
         self.m = None
         self.unit = unit
         self.ups = None
@@ -70,7 +72,7 @@ class BetMonitor(Monitor):
 
     def ensure(self, st):
         if self.m is None:
-            self.m = model_for(st)
+            self.m = self.model_factory(st)
             self.ups = ups_of(st)
 
     def on_op(self, world, st, op):
@@ -80,7 +82,7 @@ class BetMonitor(Monitor):
         try:
             self.m.on(op, ups_provider=lambda: self.ups, engine_opener_hint=None)
         except ModelError as e:
-            raise Violation('C03.' + e.rule, f'{e} [operation #{len(st.operations)} {op!r}; log {opseq(st)}]', rule=e.rule)
+            raise Violation(self.prefix + '.' + e.rule, f'{e} [operation #{len(st.operations)} {op!r}; log {opseq(st)}]', rule=e.rule)
         if type(op).__name__ in DEAL:
             self.ups = ups_of(st)
         if self.m.opener_unspecified:
@@ -101,7 +103,7 @@ class BetMonitor(Monitor):
                 return
         actor = st.actor_index
         if m.in_round != (actor is not None):
-            raise Violation('C03.round', f'the rules say {"player %s is to act (queue %s)" % (m.actor(), m.queue) if m.in_round else "the betting round is over"}, '
+            raise Violation(self.prefix + '.round', f'the rules say {"player %s is to act (queue %s)" % (m.actor(), m.queue) if m.in_round else "the betting round is over"}, '
                             f'the engine says actor_index={actor}; log {opseq(st)}; stacks {st.stacks} bets {st.bets}',
                             rule='round')
         if not m.in_round:
@@ -110,30 +112,30 @@ class BetMonitor(Monitor):
         i = m.actor()
         ctx = f'[player {i}, street {m.street}, bets {st.bets}, stacks {st.stacks}, log {opseq(st)}]'
         if actor != i:
-            raise Violation('C03.turn', f'it is player {i}\'s turn by the rules (queue {m.queue}, designated opener '
+            raise Violation(self.prefix + '.turn', f'it is player {i}\'s turn by the rules (queue {m.queue}, designated opener '
                             f'{m.designated}), the engine says {actor} {ctx}', rule='turn')
         fs = m.fold_status()
         got = st.can_fold()
         if got != (fs != 'no'):
-            raise Violation('C03.fold', f'can_fold() is {got}, the rules say {fs} {ctx}', rule='fold')
+            raise Violation(self.prefix + '.fold', f'can_fold() is {got}, the rules say {fs} {ctx}', rule='fold')
         with warnings.catch_warnings():
             warnings.simplefilter('error')
             got_e = st.can_fold()
         if got_e != (fs == 'yes'):
-            raise Violation('C03.fold', f'with warnings as errors can_fold() is {got_e}, the rules say {fs} {ctx}', rule='fold_warn')
+            raise Violation(self.prefix + '.fold', f'with warnings as errors can_fold() is {got_e}, the rules say {fs} {ctx}', rule='fold_warn')
         if st.can_check_or_call() != m.call_allowed():
-            raise Violation('C03.call', f'can_check_or_call() is {st.can_check_or_call()} {ctx}', rule='call')
+            raise Violation(self.prefix + '.call', f'can_check_or_call() is {st.can_check_or_call()} {ctx}', rule='call')
         if m.call_allowed():
             if st.checking_or_calling_amount != m.call_amount():
-                raise Violation('C03.call_amount', f'checking_or_calling_amount is {st.checking_or_calling_amount}, '
+                raise Violation(self.prefix + '.call_amount', f'checking_or_calling_amount is {st.checking_or_calling_amount}, '
                                 f'the rules say min(stack, to match) = {m.call_amount()} {ctx}', rule='call_amount')
         elif st.checking_or_calling_amount is not None:
-            raise Violation('C03.call_amount', f'a call amount is reported while the bring-in is due {ctx}', rule='call_amount')
+            raise Violation(self.prefix + '.call_amount', f'a call amount is reported while the bring-in is due {ctx}', rule='call_amount')
         if st.can_post_bring_in() != m.bring_in_pending:
-            raise Violation('C03.bring_in', f'can_post_bring_in() is {st.can_post_bring_in()}, the rules say '
+            raise Violation(self.prefix + '.bring_in', f'can_post_bring_in() is {st.can_post_bring_in()}, the rules say '
                             f'{m.bring_in_pending} {ctx}', rule='bring_in')
         if m.bring_in_pending and st.effective_bring_in_amount != m.bring_in_amount():
-            raise Violation('C03.bring_in', f'effective_bring_in_amount {st.effective_bring_in_amount} != {m.bring_in_amount()} {ctx}',
+            raise Violation(self.prefix + '.bring_in', f'effective_bring_in_amount {st.effective_bring_in_amount} != {m.bring_in_amount()} {ctx}',
                             rule='bring_in')
         why = m.raise_refusal()
         u = self.unit
@@ -144,22 +146,22 @@ class BetMonitor(Monitor):
         if why is not None:
             self.refusals[why] = self.refusals.get(why, 0) + 1
             if (lo_e, hi_e, pot_e) != (None, None, None):
-                raise Violation('C03.raise_' + why, f'the rules forbid a bet/raise ({why}) but the engine reports raise-to '
+                raise Violation(self.prefix + '.raise_' + why, f'the rules forbid a bet/raise ({why}) but the engine reports raise-to '
                                 f'amounts min={lo_e} max={hi_e} {ctx}', rule='raise_' + why)
             probes = [None, u, m.cur() + m.street_min, total, total + u, 0 * u, -u]
             for x in probes:
                 self.probed += 1
                 if st.can_complete_bet_or_raise_to(*(() if x is None else (x,))):
-                    raise Violation('C03.raise_' + why, f'the rules forbid a bet/raise ({why}) but '
+                    raise Violation(self.prefix + '.raise_' + why, f'the rules forbid a bet/raise ({why}) but '
                                     f'can_complete_bet_or_raise_to({x}) is True {ctx}', rule='raise_' + why)
             return
         lo, hi, pot = m.raise_interval()
         if (lo_e, hi_e) != (lo, hi):
-            raise Violation('C03.interval', f'raise-to interval is [{lo_e}, {hi_e}], the rules say [{lo}, {hi}] '
+            raise Violation(self.prefix + '.interval', f'raise-to interval is [{lo_e}, {hi_e}], the rules say [{lo}, {hi}] '
                             f'(largest raise {m.largest}, street minimum {m.street_min}, count {m.count}/{m.cap}) {ctx}',
                             rule='interval')
         if pot_e != pot:
-            raise Violation('C03.pot', f'pot-sized raise-to is {pot_e}, the rules say {pot} {ctx}', rule='pot')
+            raise Violation(self.prefix + '.pot', f'pot-sized raise-to is {pot_e}, the rules say {pot} {ctx}', rule='pot')
         mid = lo + ((hi - lo) // (2 * u)) * u if hi > lo else lo
         probes = [None, lo - u, lo, lo + u, mid, pot - u, pot, pot + u, hi - u, hi, hi + u, total, total + u, 0 * u, -u]
         for x in probes:
@@ -167,7 +169,7 @@ class BetMonitor(Monitor):
             want = True if x is None else lo <= x <= hi
             got = st.can_complete_bet_or_raise_to(*(() if x is None else (x,)))
             if got != want:
-                raise Violation('C03.amount', f'can_complete_bet_or_raise_to({x}) is {got}, the allowed interval is '
+                raise Violation(self.prefix + '.amount', f'can_complete_bet_or_raise_to({x}) is {got}, the allowed interval is '
                                 f'[{lo}, {hi}] {ctx}', rule='amount')
 
 
